@@ -420,7 +420,8 @@ def run(ctx):
     from . import C01  # AREF semantics of the manual: second/third XY point = origin + count x pitch, counts as written in COLROW
     ctx.attempt(C01.check_aref, ctx, db)
     ctx.attempt(C01.check_strans_writer, ctx, db)# STRANS present whenever the element is reflected / rotated / magnified
-    from . import C17 as _C17
+    from . import C17 as _C17, C19 as _C19
+    ctx.attempt(_C19.check_gds_real, ctx, db)          # the 8-byte real of UNITS / MAG / ANGLE: encoder o decoder on every power of two, sign, zero
     ctx.attempt(_C17.check_header_bytes, ctx, db)     # the bytes around the cells (HEADER ... UNITS, ENDLIB) of both writers, against the format
 
 
